@@ -35,6 +35,7 @@ pub fn plan(quick: bool) -> Vec<Part> {
     }
     for k in BIG_K {
         v.push(Part::new("C02", "catalogue", k, Space { segs: vec![catalogue(k)] }).dim("labels", &[0, 1]));
+        v.push(Part::new("C02", "lifted", k, vcommon::families::lifted(k, !quick)).dim("labels", &[0, 1]));
     }
     v
 }
